@@ -15,7 +15,9 @@ def emit_string(s, ascii_only=True):
             out.append(_ESC[ch])
             continue
         o = ord(ch)
-        if o < 0x20:
+        if o < 0x20 or 0xd800 <= o <= 0xdfff:
+            # control characters, and lone surrogates (no codec can carry
+            # them raw): always escaped
             out.append('\\u%04x' % o)
         elif o < 0x7f or not ascii_only:
             out.append(ch)
